@@ -233,4 +233,4 @@ def cfg(tier, seed):
     return out
 
 
-HARNESSES = [H("sq_columns", h_sq, cfg, timeout_ms=30000)]
+HARNESSES = [H("sq_columns", h_sq, cfg, timeout_ms=30000, validate_atol=3e-6)]
